@@ -28,7 +28,12 @@ const (
 // VerifDir is the root of the verification tree.
 var VerifDir = "/verif"
 
+// ProcessRuns lets a world ask for short-lived worker processes: after that many runs the worker exits and the
+// driver starts a fresh one (lazily initialised process-wide state is cold again).
+type ProcessRuns interface{ ProcessRuns() int }
+
 type workerResult struct {
+	More       bool        `json:"more"`
 	Stats      *Stats      `json:"stats"`
 	Violations []foundViol `json:"violations"`
 	Done       bool        `json:"done"`
@@ -300,6 +305,11 @@ func cmdWorker(args []string) (code int) {
 	}()
 	start := time.Now()
 	classes := map[string]bool{}
+	maxRuns := 0
+	if pr, ok := w.(ProcessRuns); ok && *only < 0 {
+		maxRuns = pr.ProcessRuns()
+	}
+	done := 0
 	for i := *from; i < *total; i++ {
 		if *only >= 0 && i != *only {
 			continue
@@ -311,6 +321,11 @@ func cmdWorker(args []string) (code int) {
 			res.Early = true
 			break
 		}
+		if maxRuns > 0 && done >= maxRuns {
+			res.More = true
+			break
+		}
+		done++
 		o := ExecOpts{Tier: *tier, Seed: *seed, RunIdx: i, Stats: res.Stats, Journal: journal}
 		c := ExecRun(w, o)
 		res.LastRun = i
@@ -523,6 +538,11 @@ func runWorld(w World, tier string, seed uint64, total, nw int, budget time.Dura
 							oc.early = true
 						}
 						mu.Unlock()
+						if res.More && !res.Early {
+							from = res.LastRun + 1
+							attempt = 0
+							continue
+						}
 						return
 					}
 				}
